@@ -277,3 +277,46 @@ def target(expression, name=None):
 
 def func(fname, *operands):
     return ast.Function(fname, list(operands))
+
+
+# -- generic AST rewriting ------------------------------------------------------
+
+def map_ast(node, fn):
+    """Rebuild an AST bottom-up, replacing each node by fn(node) (fn may return the node itself)."""
+    import dataclasses
+    if isinstance(node, ast.Node):
+        kwargs = {}
+        for field in dataclasses.fields(node):
+            if field.name == 'parseinfo':
+                kwargs['parseinfo'] = node.parseinfo
+                continue
+            kwargs[field.name] = map_ast(getattr(node, field.name), fn)
+        return fn(type(node)(**kwargs))
+    if isinstance(node, list):
+        return [map_ast(item, fn) for item in node]
+    return node
+
+
+def placeholders_in_text_order(tree):
+    nodes = [n for n in tree.walk() if isinstance(n, ast.Placeholder)]
+    return sorted(nodes, key=lambda n: n.parseinfo.pos)
+
+
+def substitute_placeholders(tree, params):
+    """The statement with the parameter values written as constants: positional parameters bind
+    in left-to-right textual order, named ones by name."""
+    if isinstance(params, dict):
+        def fn(node):
+            if isinstance(node, ast.Placeholder):
+                return ast.Constant(params[node.name])
+            return node
+        return map_ast(tree, fn)
+    order = {id(n): i for i, n in enumerate(placeholders_in_text_order(tree))}
+    # map_ast rebuilds nodes, so identify placeholders by source position instead of identity
+    pos_index = {n.parseinfo.pos: order[id(n)] for n in placeholders_in_text_order(tree)}
+
+    def fn(node):
+        if isinstance(node, ast.Placeholder):
+            return ast.Constant(params[pos_index[node.parseinfo.pos]])
+        return node
+    return map_ast(tree, fn)
